@@ -209,7 +209,21 @@ def hygiene():
     return bad
 
 
-def check_props(prop_id):
+def coqchk(prop_id):
+    """Independent re-check of the compiled property file and everything it depends on
+    (thorough tier). Returns (ok, summary)."""
+    with Lock("coq"):
+        rc, out = run(["coqchk", "-silent", "-o", "-Q", "theories", "HclV", "HclV.Props." + prop_id], cwd=COQ, timeout=3000)
+    tail = out[out.find("CONTEXT SUMMARY"):] if "CONTEXT SUMMARY" in out else out[-1500:]
+    fields = dict((k.strip(), v.strip()) for k, v in re.findall(r"\* ([^:\n]+):\s*([^\n]*(?:\n    [^\n]+)*)", tail))
+    ok = (rc == 0 and fields.get("Axioms") == "<none>"
+          and fields.get("Constants/Inductives relying on type-in-type") == "<none>"
+          and fields.get("Constants/Inductives relying on unsafe (co)fixpoints") == "<none>"
+          and fields.get("Inductives whose positivity is assumed") == "<none>")
+    return ok, tail.strip()[:1500]
+
+
+def check_props(prop_id, tier="quick"):
     """Compile the property file and collect its obligations.
 
     Returns dict(ok, theorems=[names], closed=[names], open={name: assumptions}, log).
@@ -249,6 +263,11 @@ def check_props(prop_id):
     if len(chunks) != len(printed):
         res["open"]["<output>"] = "expected %d Print Assumptions results, got %d" % (len(printed), len(chunks))
     res["hygiene"] = hygiene()
+    if tier == "thorough":
+        ok2, summary = coqchk(prop_id)
+        res["coqchk"] = summary
+        if not ok2:
+            res["open"]["<coqchk>"] = "coqchk does not report an axiom-free, fully checked context: " + summary[-600:]
     res["ok"] = (not res["open"]) and (not res["hygiene"]) and len(theorems) > 0
     return res
 
@@ -327,44 +346,63 @@ def parse_blocks(text):
     return blocks
 
 
-def run_cases(binary, lines, shards=None, timeout=1800):
-    """lines: list of 'id cmd args'. Returns dict id -> list of output lines."""
+def run_cases(binary, lines, shards=None, timeout=1800, restarts=4):
+    """lines: list of 'id cmd args'. Returns dict id -> list of output lines.
+
+    A shard whose process dies or gives no answer within `timeout` seconds is restarted after
+    the offending case (marked DIED / DIED+HUNG), up to `restarts` times; cases that never ran
+    are marked NOT-RUN."""
     if not lines:
         return {}
     shards = shards or min(NPROC, max(1, len(lines) // 200))
     chunks = [lines[i::shards] for i in range(shards)]
-    procs = []
-    for ch in chunks:
-        p = subprocess.Popen([binary], stdin=subprocess.PIPE, stdout=subprocess.PIPE,
-                             stderr=subprocess.DEVNULL, text=True, errors="replace")
-        procs.append((p, ch))
     import threading
-    results = [None] * len(procs)
+    results = [None] * len(chunks)
 
-    def work(i, p, ch):
-        try:
-            out, _ = p.communicate("\n".join(ch) + "\n", timeout=timeout)
-        except subprocess.TimeoutExpired:
-            p.kill()
-            out, _ = p.communicate()
-            out += "\n#TIMEOUT\n"
-        results[i] = out
+    def work(i, ch):
+        pending = list(ch)
+        blocks = {}
+        failures = 0
+        while pending:
+            p = subprocess.Popen([binary], stdin=subprocess.PIPE, stdout=subprocess.PIPE,
+                                 stderr=subprocess.DEVNULL, text=True, errors="replace")
+            hung = False
+            try:
+                out, _ = p.communicate("\n".join(pending) + "\n", timeout=timeout)
+            except subprocess.TimeoutExpired:
+                p.kill()
+                out, _ = p.communicate()
+                hung = True
+            b = parse_blocks(out or "")
+            done = 0
+            for line in pending:
+                cid = line.split(" ", 1)[0]
+                if cid in b and b[cid][-1:] != ["DIED"]:
+                    blocks[cid] = b[cid]
+                    done += 1
+                else:
+                    break
+            if done == len(pending):
+                break
+            cid = pending[done].split(" ", 1)[0]
+            blocks[cid] = [l for l in b.get(cid, []) if l != "DIED"] + ["DIED"] + \
+                          (["HUNG (no answer within %d s)" % timeout] if hung else ["(process exit status %s)" % p.returncode])
+            failures += 1
+            pending = pending[done + 1:]
+            if failures > restarts:
+                for line in pending:
+                    blocks[line.split(" ", 1)[0]] = ["NOT-RUN (the process died or hung %d times before this case)" % failures]
+                break
+        results[i] = blocks
 
-    threads = [threading.Thread(target=work, args=(i, p, ch)) for i, (p, ch) in enumerate(procs)]
+    threads = [threading.Thread(target=work, args=(i, ch)) for i, ch in enumerate(chunks)]
     for t in threads:
         t.start()
     for t in threads:
         t.join()
     blocks = {}
-    for (p, ch), out in zip(procs, results):
-        b = parse_blocks(out or "")
-        blocks.update(b)
-        # cases after a crash/hang never ran: mark them
-        seen_dead = False
-        for line in ch:
-            cid = line.split(" ", 1)[0]
-            if cid not in b:
-                blocks[cid] = ["NOT-RUN (process stopped earlier: exit %s)" % p.returncode]
+    for b in results:
+        blocks.update(b or {})
     return blocks
 
 
@@ -409,6 +447,10 @@ class Report:
         self.obligations += max(n, 1)
         self.discharged += len(res["closed"]) + (0 if res["hygiene"] else 1)
         self.notes["theorems"] = res["theorems"]
+        if res.get("coqchk"):
+            self.notes["coqchk"] = res["coqchk"]
+            self.obligations += 1
+            self.discharged += 0 if "<coqchk>" in res["open"] else 1
         if not res["ok"]:
             what = "proof obligations of Props/%s.v do not check" % self.prop_id
             detail = {"open": res["open"], "hygiene": res["hygiene"], "log": res["log"][-3000:]}
